@@ -63,11 +63,18 @@ def scenarios(tier):
                           "a_msgs": list(sa), "b_msgs": list(sb), "max_bytes": 3, "end": "eof",
                           "delay_reader": False,
                           "label": f"{kind} duplex {sa} / {sb}"})
-        for which in ("send", "receive"):
+        for which in ("send", "receive", "send_eof"):
             progs.append({"custom": "mc.families.c18_sockets:build", "kind": kind,
-                          "a_msgs": [9, 9] if which == "send" else [1], "b_msgs": [],
-                          "max_bytes": 4, "end": "eof", "delay_reader": which == "send",
+                          "a_msgs": [9, 9] if which != "receive" else [1], "b_msgs": [],
+                          "max_bytes": 4, "end": "eof", "delay_reader": which != "receive",
                           "busy": which, "label": f"{kind} two tasks on one {which} direction"})
+        # the reader's receive() calls are cancelled (up to twice, at any moment) and retried:
+        # a cancelled receive() has not consumed anything
+        for sz in ([(3,), (2, 3)] if tier == "quick" else [(3,), (2, 3), (9,), (1, 1, 1)]):
+            progs.append({"custom": "mc.families.c18_sockets:build", "kind": kind,
+                          "a_msgs": list(sz), "b_msgs": [], "max_bytes": 2, "end": "eof",
+                          "delay_reader": False, "cancel_reader": 2,
+                          "label": f"{kind} oneway {sz}, reader's receive() cancelled and retried"})
         progs.append({"custom": "mc.families.c18_sockets:build", "kind": kind, "a_msgs": [3],
                       "b_msgs": [], "max_bytes": 2, "end": "eof", "delay_reader": False,
                       "local_close": True, "label": f"{kind} receive/send after local close"})
@@ -143,7 +150,16 @@ def build(world, program):
             while True:
                 try:
                     log("rx_call", name)
-                    chunk = await stream.receive(mb)
+                    if program.get("cancel_reader") and name == "B":
+                        with anyio.CancelScope() as sc:
+                            cur["sc"] = sc
+                            chunk = await stream.receive(mb)
+                        cur["sc"] = None
+                        if sc.cancelled_caught:
+                            log("rx_cancelled", name)
+                            continue
+                    else:
+                        chunk = await stream.receive(mb)
                 except BaseException as e:
                     log("recv_end", name, type(e).__name__)
                     if isinstance(e, asyncio.CancelledError):
@@ -151,6 +167,11 @@ def build(world, program):
                     return
                 log("recv", name, chunk.hex())
 
+        cur = {"sc": None}
+        for k in range(program.get("cancel_reader", 0)):
+            ctl.add_action(f"!cancel_rx:{k}", lambda: cur["sc"] and cur["sc"].cancel(),
+                           enabled=lambda: cur["sc"] is not None and not cur["sc"].cancel_called,
+                           after=[f"!cancel_rx:{k - 1}"] if k else ())
         go2 = anyio.Event()
         busy_done = anyio.Event()
         if program.get("busy"):
@@ -162,6 +183,8 @@ def build(world, program):
                 log("busy_call", name)
                 if which == "send":
                     await stream.send(b"\xff")
+                elif which == "send_eof":
+                    await stream.send_eof()
                 else:
                     await stream.receive(1)
                 log("busy_result", name, "ok")
@@ -210,8 +233,8 @@ def build(world, program):
             if b_msgs:
                 tg.start_soon(sender, "B", b, b_msgs, "eof")
                 tg.start_soon(receiver, "A", a, False)
-            if program.get("busy") == "send":
-                tg.start_soon(busy_second, "A2", a, "send")
+            if program.get("busy") in ("send", "send_eof"):
+                tg.start_soon(busy_second, "A2", a, program["busy"])
             elif program.get("busy") == "receive":
                 tg.start_soon(busy_second, "B2", b, "receive")
             if program["end"] == "abandon":
@@ -316,11 +339,11 @@ def check(program, ex):
             if got != sent:
                 v.append(f"{dst} received {got.hex()} but {src} sent {sent.hex()}")
             continue
-        if not sent.startswith(got) and not (busy == "send"):
+        if not sent.startswith(got) and not (busy in ("send", "send_eof")):
             v.append(f"{dst} received {got.hex()}, not a prefix of what {src} sent {sent.hex()}")
         sender_done = any(e[2] in ("send_eof", "closed") and e[3] == src for e in log)
         if sender_done:
-            if busy != "send" and got != sent:
+            if busy not in ("send", "send_eof") and got != sent:
                 v.append(f"{src} sent {sent.hex()} and finished, but {dst} received {got.hex()} "
                          f"before {end}")
             if end and end[0] != "EndOfStream":
@@ -332,7 +355,8 @@ def check(program, ex):
     if program.get("busy"):
         # was the first task inside its send()/receive() when the second one called?
         which = program["busy"]
-        begin, endk, who = (("tx_call", ("sent", "send_exc"), "A") if which == "send"
+        begin, endk, who = (("tx_call", ("sent", "send_exc"), "A")
+                            if which in ("send", "send_eof")
                             else ("rx_call", ("recv", "recv_end"), "B"))
         # the first task's operation must span the second task's whole call (the second call
         # starts with a checkpoint; by the time it touches the stream the first may be done)
@@ -349,6 +373,8 @@ def check(program, ex):
                 at_call = at_call and inflight
         if not br:
             v.append("second task on the same direction never finished")
+        elif which == "send_eof" and program["kind"] == "tcp":
+            pass  # (the transport's write_eof() queues behind the buffered data: no guard there)
         elif at_call and br[0][4] != "BusyResourceError":
             v.append(f"second task using the same {which} direction while the first was in "
                      f"progress got {br[0][4]} instead of BusyResourceError")
